@@ -209,7 +209,54 @@ enum Act {
     Loop(u32, Name, COp, Rhs),
     /// `k = v` nested in `if true` (0), `if false` (1), `match 1` / `1 then` (2)
     Cond(u32, Name, i64),
+    /// `export k = element` inside a callback of a core function / a generator body, over the elements
+    /// 1..=n; the template (see CB_TEMPLATES) decides how many elements the callback sees
+    Cb(u32, u32, Name),
 }
+
+/// (source with `N` = element count and `K` = exported id, does the callback see all elements?)
+/// adaptors (each, keep, take) run the callback in a spawned VM, consumers (fold, all, find, any,
+/// position, max) on the calling one, generators in their own
+const CB_TEMPLATES: &[(&str, bool)] = &[
+    ("(1..=N).each(|zn| export K = zn).consume()", true),
+    ("(1..=N).keep(|zn| (export K = zn) > 0).consume()", true),
+    ("(1..=N).take(|zn| (export K = zn) > 0).consume()", true),
+    ("(1..=N).take(|zn| (export K = zn) < 0).consume()", false),
+    ("(1..=N).fold 0, |za, zn| export K = zn", true),
+    ("(1..=N).all |zn| (export K = zn) > 0", true),
+    ("(1..=N).all |zn| (export K = zn) < 0", false),
+    ("(1..=N).find |zn| (export K = zn) < 0", true),
+    ("(1..=N).find |zn| (export K = zn) > 0", false),
+    ("(1..=N).any |zn| (export K = zn) < 0", true),
+    ("(1..=N).any |zn| (export K = zn) > 0", false),
+    ("(1..=N).position |zn| (export K = zn) < 0", true),
+    ("(1..=N).position |zn| (export K = zn) > 0", false),
+    ("(1..=N).each(|zn| export K = zn).to_list()", true),
+    ("(1..=N).each(|zn| export K = zn).count()", true),
+    ("(1..=N).each(|zn| export K = zn).last()", true),
+    ("(1..=N).to_list().retain |zn| (export K = zn) > 0", true),
+    ("(1..=N).to_list().transform |zn| export K = zn", true),
+    ("(1..=N).max |zn| export K = zn", true),
+    ("(1..=N).min |zn| export K = zn", true),
+    ("(1..=N).chain(1..1).each(|zn| export K = zn).consume()", true),
+    ("(1..=N).zip(1..=N).each(|zn| export K = zn.first()).consume()", true),
+];
+
+/// the last element whose callback ran (0 = none)
+fn cb_last(tmpl: u32, n: u32) -> u32 {
+    let t = tmpl as usize;
+    if t == CB_TEMPLATES.len() {
+        n // generator consumed completely
+    } else if t == CB_TEMPLATES.len() + 1 {
+        n.min(1) // generator advanced once
+    } else if CB_TEMPLATES[t].1 {
+        n
+    } else {
+        n.min(1)
+    }
+}
+
+const CB_COUNT: u32 = CB_TEMPLATES.len() as u32 + 2;
 
 #[derive(Clone, Copy, Debug, Serialize, Deserialize, PartialEq)]
 enum COp {
@@ -283,6 +330,9 @@ struct FileDef {
     path: MPath,
     /// None = a file that does not compile
     body: Option<Vec<TAct>>,
+    /// see Op::fn_defaults
+    #[serde(default)]
+    fn_defaults: u8,
 }
 
 #[derive(Clone, Debug, Serialize, Deserialize)]
@@ -290,6 +340,14 @@ struct Op {
     dir: Vec<Name>,
     export_top: bool,
     body: Vec<TAct>,
+    /// the script path given to the compiler is `<dir>/<script>.koto` (an existing module file whose
+    /// content is this very script) instead of the neutral `_host.koto`; resolution only uses the folder
+    #[serde(default)]
+    script: Option<Name>,
+    /// how many default-valued arguments the functions defined by this script get (rendering only:
+    /// they are never passed, the model does not know about them)
+    #[serde(default)]
+    fn_defaults: u8,
 }
 
 #[derive(Clone, Debug, Serialize, Deserialize)]
@@ -315,6 +373,8 @@ struct Flags {
     canon: bool,
     dotted: bool,
     str_alias: bool,
+    /// Cfg.exportsFirst (F-C18-7)
+    exports_first: bool,
 }
 
 /// names 200 + 10·a + b are the dotted module names `m<a>.v<b>`
@@ -369,6 +429,7 @@ fn act_sexp(a: &Act) -> String {
         Act::Cmp(k, op, r) => format!("(cmp {} {} {})", k, op.atom(), rhs_sexp(r)),
         Act::Loop(n, k, op, r) => format!("(loop {} {} {} {})", n, k, op.atom(), rhs_sexp(r)),
         Act::Cond(f, k, v) => format!("(cond {} {} {})", f, k, v),
+        Act::Cb(t, n, k) => format!("(cb {} {})", cb_last(*t, *n), k),
         Act::Pat(e, ts, rs) => format!(
             "(pat {} ({}) ({}))",
             *e as u8,
@@ -416,12 +477,13 @@ fn path_sexp(p: &MPath) -> String {
 
 fn request(sc: &Scenario) -> String {
     let mut s = format!(
-        "run (cfg {} {} {} {} {} (stems",
+        "run (cfg {} {} {} {} {} {} (stems",
         sc.run_import_tests as u8,
         sc.host_tests as u8,
         sc.flags.alias as u8,
         sc.flags.canon as u8,
-        sc.flags.str_alias as u8
+        sc.flags.str_alias as u8,
+        sc.flags.exports_first as u8
     );
     if !sc.flags.dotted {
         // what Path::with_extension keeps of a dotted module name
@@ -509,6 +571,23 @@ fn act_src(a: &Act, ind: &str, out: &mut Vec<String>) {
             out.push(format!("{ind}for zi in 0..{}", n));
             out.push(format!("{ind}  {} {} {}", name_str(*k), op.src(), rhs_src(r)));
         }
+        Act::Cb(t, n, k) => {
+            let ti = *t as usize;
+            if ti < CB_TEMPLATES.len() {
+                out.push(format!("{ind}{}", CB_TEMPLATES[ti].0.replace('N', &n.to_string()).replace('K', &name_str(*k))));
+            } else {
+                // a generator whose body exports before every yield
+                out.push(format!("{ind}zgen = ||"));
+                out.push(format!("{ind}  for zn in 1..={}", n));
+                out.push(format!("{ind}    export {} = zn", name_str(*k)));
+                out.push(format!("{ind}    yield zn"));
+                if ti == CB_TEMPLATES.len() {
+                    out.push(format!("{ind}zgen().consume()"));
+                } else {
+                    out.push(format!("{ind}zgen().next()"));
+                }
+            }
+        }
         Act::Cond(f, k, v) => match f {
             0 => {
                 out.push(format!("{ind}if true"));
@@ -558,8 +637,9 @@ fn act_src(a: &Act, ind: &str, out: &mut Vec<String>) {
     }
 }
 
-fn fn_src(header: String, mk: u32, body: &[Act], ind: &str, out: &mut Vec<String>) {
-    out.push(format!("{ind}{header} = ||"));
+fn fn_src(header: String, mk: u32, body: &[Act], defaults: u8, ind: &str, out: &mut Vec<String>) {
+    let args: Vec<String> = (0..defaults).map(|i| format!("zd{} = {}", i, i)).collect();
+    out.push(format!("{ind}{header} = |{}|", args.join(", ")));
     let inner = format!("{ind}  ");
     out.push(format!("{inner}print 'P{mk}'"));
     for a in body {
@@ -567,14 +647,20 @@ fn fn_src(header: String, mk: u32, body: &[Act], ind: &str, out: &mut Vec<String
     }
 }
 
+#[allow(dead_code)]
 fn body_src(body: &[TAct]) -> String {
+    body_src_d(body, 0)
+}
+
+/// `defaults`: number of default-valued arguments every function of the body is rendered with
+fn body_src_d(body: &[TAct], defaults: u8) -> String {
     let mut out = vec![];
     for t in body {
         match t {
             TAct::A(a) => act_src(a, "", &mut out),
-            TAct::Main(mk, b) => fn_src("@main".into(), *mk, b, "", &mut out),
-            TAct::Test(n, mk, b) => fn_src(format!("@test {}", name_str(*n)), *mk, b, "", &mut out),
-            TAct::Fn(k, mk, b) => fn_src(format!("export {}", name_str(*k)), *mk, b, "", &mut out),
+            TAct::Main(mk, b) => fn_src("@main".into(), *mk, b, defaults, "", &mut out),
+            TAct::Test(n, mk, b) => fn_src(format!("@test {}", name_str(*n)), *mk, b, defaults, "", &mut out),
+            TAct::Fn(k, mk, b) => fn_src(format!("export {}", name_str(*k)), *mk, b, defaults, "", &mut out),
             TAct::CallM(m, k) => out.push(format!("{}.{}()", name_str(*m), name_str(*k))),
             TAct::Call(k) => out.push(format!("{}()", name_str(*k))),
         }
@@ -715,7 +801,7 @@ fn write_scenario(root: &Path, sc: &Scenario) {
         std::fs::create_dir_all(p.parent().unwrap()).unwrap();
         let src = match &f.body {
             None => BAD_SOURCE.to_string(),
-            Some(b) => body_src(b),
+            Some(b) => body_src_d(b, f.fn_defaults),
         };
         std::fs::write(&p, src).unwrap();
     }
@@ -755,8 +841,11 @@ fn run_impl(scratch: &mut Scratch, sc: &Scenario) -> Result<Vec<OpOut>, String> 
         let mut koto = Koto::with_settings(settings);
         let mut outs = vec![];
         for op in &sc.ops {
-            let script = body_src(&op.body);
-            let script_path = dir_path(&root, &op.dir).join("_host.koto");
+            let script = body_src_d(&op.body, op.fn_defaults);
+            let script_path = match op.script {
+                Some(n) => dir_path(&root, &op.dir).join(format!("{}.koto", name_str(n))),
+                None => dir_path(&root, &op.dir).join("_host.koto"),
+            };
             let args = CompileArgs {
                 script: &script,
                 script_path: Some(script_path.to_string_lossy().to_string().into()),
@@ -1036,6 +1125,24 @@ fn direct_laws(sc: &Scenario, outs: &[OpOut], open: &[String], attributed: &mut 
             }
         }
     }
+    // the root script's top level runs once while it is the root script (cause rule of F-C18-8: it is
+    // loaded again as a module through an import cycle)
+    for (i, o) in sc.ops.iter().enumerate() {
+        if o.script.is_none() {
+            continue;
+        }
+        if let (Some(TAct::A(Act::Print(m))), Some(out)) = (o.body.first(), outs.get(i)) {
+            let ev = format!("P{}", m);
+            let c = out.events.iter().filter(|e| **e == ev).count();
+            if c > 1 {
+                if is_open("F-C18-8") {
+                    attributed.push("F-C18-8");
+                } else {
+                    return Some(("run-once-root".into(), format!("the top level of the root script of operation {} ran {} times", i, c)));
+                }
+            }
+        }
+    }
     // dotted module names: `a.koto` must not run when no import names `a` (only `a.vN` is named)
     {
         let mut named: BTreeSet<Name> = BTreeSet::new();
@@ -1111,6 +1218,9 @@ fn direct_laws(sc: &Scenario, outs: &[OpOut], open: &[String], attributed: &mut 
                                 fn_keys.insert(kvh::hex(name_str(k).as_bytes()));
                             }
                         }
+                        if let Act::Cb(_, _, k) = a {
+                            fn_keys.insert(kvh::hex(name_str(*k).as_bytes()));
+                        }
                     }
                 }
             }
@@ -1126,7 +1236,7 @@ fn direct_laws(sc: &Scenario, outs: &[OpOut], open: &[String], attributed: &mut 
                 }
             }
             for a in acts_of(&o.body) {
-                if let Act::Export(k, _) | Act::ExportId(k, _) = a {
+                if let Act::Export(k, _) | Act::ExportId(k, _) | Act::Cb(_, _, k) = a {
                     allowed.insert(kvh::hex(name_str(*k).as_bytes()));
                 }
                 if let Act::Pat(true, ts, _) = a {
@@ -1243,6 +1353,12 @@ fn direct_laws(sc: &Scenario, outs: &[OpOut], open: &[String], attributed: &mut 
                             all_unknown = true;
                         }
                     }
+                    Act::Cb(t, n, k) => {
+                        let last = cb_last(*t, *n);
+                        if last > 0 {
+                            exp.insert(*k, Some(last as i64));
+                        }
+                    }
                     Act::Print(_) | Act::Show(..) | Act::Try(..) | Act::Fail(_) => {}
                 }
             }
@@ -1333,6 +1449,7 @@ fn direct_laws(sc: &Scenario, outs: &[OpOut], open: &[String], attributed: &mut 
                 Act::FromAll(_) => o.export_top,
                 Act::Pat(e2, ts2, _) => (*e2 || o.export_top) && ts2.iter().flat_map(target_bound).any(|x| x == k),
                 Act::Cmp(k2, ..) | Act::Loop(_, k2, ..) | Act::Cond(_, k2, _) => o.export_top && *k2 == k,
+                Act::Cb(_, _, k2) => *k2 == k,
                 _ => false,
             });
             if later_writes {
@@ -1629,6 +1746,12 @@ impl<'a> Gen<'a> {
         if self.rng.chance(1, 9) {
             return self.arith_act(mods);
         }
+        if self.rng.chance(1, 14) {
+            // an export from a callback of a core function (the generator templates define a local
+            // `zgen`: host scripts with export_top_level_ids replace them, see host_body)
+            let k = self.key(mods);
+            return Act::Cb(self.rng.below(CB_COUNT as usize) as u32, self.rng.below(4) as u32, k);
+        }
         match self.rng.weighted(&[2, 4, 2, if nothing_known { 0 } else { 1 }, read_w, import_w, fail_pct]) {
             0 => Act::Print(self.mk()),
             1 => Act::Export(self.key(mods), self.rng.range(-3, 40)),
@@ -1739,6 +1862,11 @@ impl<'a> Gen<'a> {
                         }
                     }
                 }
+                if let Act::Cb(t, n, k) = &a {
+                    if export_top && *t as usize >= CB_TEMPLATES.len() {
+                        a = Act::Cb(0, *n, *k);
+                    }
+                }
                 let binds = act_binds(&a);
                 if let Act::Cmp(k, ..) | Act::Loop(_, k, ..) = &a {
                     if export_top && !self.bound.contains(k) {
@@ -1823,7 +1951,8 @@ impl<'a> Gen<'a> {
             // names resolvable from this file's folder
             let targets: Vec<Name> = layout.iter().filter(|q| q.dir == folder).map(|q| q.name).collect();
             let body = if self.rng.chance(1, 40) { None } else { Some(self.module_body(&mods, &targets, fail_pct)) };
-            files.push(FileDef { path: p.clone(), body });
+            let fn_defaults = if self.rng.chance(1, 2) { 0 } else { self.rng.below(4) as u8 };
+            files.push(FileDef { fn_defaults, path: p.clone(), body });
         }
         self.bound.clear();
         self.visible.clear();
@@ -1840,7 +1969,8 @@ impl<'a> Gen<'a> {
                 _ => true,
             };
             let body = self.host_body(&mods, &targets, true, export_top);
-            ops.push(Op { dir, export_top, body });
+            let fn_defaults = if self.rng.chance(1, 2) { 0 } else { self.rng.below(4) as u8 };
+            ops.push(Op { script: None, fn_defaults, dir, export_top, body });
         }
         Scenario {
             run_import_tests: self.rng.chance(1, 2),
@@ -1929,11 +2059,21 @@ impl<'a> Gen<'a> {
             }
             b.push(TAct::A(Act::Export(62, i as i64 + 20)));
             let is_dir = as_dir && i % 2 == 1;
-            files.push(FileDef { path: MPath { dir: vec![], name: i as Name, is_dir }, body: Some(b) });
+            files.push(FileDef { fn_defaults: 0, path: MPath { dir: vec![], name: i as Name, is_dir }, body: Some(b) });
         }
         // history: import modules in a random order, some twice
         let n_ops = 2 + self.rng.below(4);
         let mut ops = vec![];
+        if self.rng.chance(1, 4) {
+            // one of the modules is run as the ROOT script (its file is the script path): cycles that
+            // pass through the root script
+            let i = self.rng.below(total);
+            if !files[i].path.is_dir {
+                if let Some(b) = &files[i].body {
+                    ops.push(Op { script: Some(i as Name), fn_defaults: 0, dir: vec![], export_top: false, body: b.clone() });
+                }
+            }
+        }
         for _ in 0..n_ops {
             let m = self.rng.below(total) as Name;
             let act = match self.rng.below(4) {
@@ -1947,7 +2087,7 @@ impl<'a> Gen<'a> {
                 let mk = self.mk();
                 body.push(TAct::A(Act::Show(mk, *self.rng.pick(&[60, 62, 63, m]))));
             }
-            ops.push(Op { dir: vec![], export_top: self.rng.chance(1, 4), body });
+            ops.push(Op { script: None, fn_defaults: 0, dir: vec![], export_top: self.rng.chance(1, 4), body });
         }
         Scenario {
             run_import_tests: self.rng.chance(2, 3),
@@ -1980,7 +2120,7 @@ fn wild_family(rng: &mut Rng) -> Scenario {
                 b.push(TAct::A(Act::Export(*k, (10 * (i + 1) + j as u32) as i64)));
             }
         }
-        files.push(FileDef { path: MPath { dir: vec![], name: i, is_dir: false }, body: Some(b) });
+        files.push(FileDef { fn_defaults: 0, path: MPath { dir: vec![], name: i, is_dir: false }, body: Some(b) });
     }
     // m3: wildcard imports interleaved with closures
     let mut b = vec![TAct::A(Act::Print(next()))];
@@ -2003,10 +2143,10 @@ fn wild_family(rng: &mut Rng) -> Scenario {
     let mm = next();
     let body: Vec<Act> = keys.iter().map(|k| Act::Show(next(), *k)).collect();
     b.push(TAct::Main(mm, body));
-    files.push(FileDef { path: MPath { dir: vec![], name: 3, is_dir: false }, body: Some(b) });
+    files.push(FileDef { fn_defaults: 0, path: MPath { dir: vec![], name: 3, is_dir: false }, body: Some(b) });
     let mut ops = vec![];
     let export_top = rng.chance(1, 3);
-    ops.push(Op { dir: vec![], export_top: false, body: vec![TAct::A(Act::Try(3.into(), next()))] });
+    ops.push(Op { script: None, fn_defaults: 0, dir: vec![], export_top: false, body: vec![TAct::A(Act::Try(3.into(), next()))] });
     let mut body = vec![];
     if rng.chance(1, 3) {
         body.push(TAct::A(Act::Export(*rng.pick(&keys), 700)));
@@ -2019,7 +2159,7 @@ fn wild_family(rng: &mut Rng) -> Scenario {
             body.push(TAct::A(Act::Show(next(), *k)));
         }
     }
-    ops.push(Op { dir: vec![], export_top, body });
+    ops.push(Op { script: None, fn_defaults: 0, dir: vec![], export_top, body });
     let mut body2 = vec![];
     for k in keys.iter() {
         if rng.chance(1, 2) {
@@ -2027,7 +2167,7 @@ fn wild_family(rng: &mut Rng) -> Scenario {
         }
     }
     body2.push(TAct::A(Act::Print(next())));
-    ops.push(Op { dir: vec![], export_top, body: body2 });
+    ops.push(Op { script: None, fn_defaults: 0, dir: vec![], export_top, body: body2 });
     Scenario { run_import_tests: rng.chance(2, 3), host_tests: false, prelude: vec![], files, ops, family: "wildcards".into(), flags: Flags::default() }
 }
 
@@ -2044,7 +2184,7 @@ fn toplevel_family(rng: &mut Rng) -> Scenario {
     let ids: [Name; 6] = [60, 61, 62, 63, 90, 91];
     let mut known: Vec<Name> = vec![]; // ids assigned by an earlier statement (any script)
     let mut pows = 0;
-    let files = vec![FileDef { path: MPath { dir: vec![], name: 0, is_dir: false }, body: Some(vec![TAct::A(Act::Print(next())), TAct::A(Act::Export(60, 3)), TAct::A(Act::Export(90, 4))]) }];
+    let files = vec![FileDef { fn_defaults: 0, path: MPath { dir: vec![], name: 0, is_dir: false }, body: Some(vec![TAct::A(Act::Print(next())), TAct::A(Act::Export(60, 3)), TAct::A(Act::Export(90, 4))]) }];
     let always = rng.chance(2, 3);
     let mut ops = vec![];
     for _ in 0..(2 + rng.below(4)) {
@@ -2090,8 +2230,13 @@ fn toplevel_family(rng: &mut Rng) -> Scenario {
             if rng.chance(1, 12) {
                 body.push(TAct::A(Act::FromAll(0.into())));
             }
+            if rng.chance(1, 8) {
+                let k = *rng.pick(&ids);
+                body.push(TAct::A(Act::Cb(rng.below(CB_TEMPLATES.len()) as u32, rng.below(4) as u32, k)));
+                known.push(k);
+            }
         }
-        ops.push(Op { dir: vec![], export_top: et, body });
+        ops.push(Op { script: None, fn_defaults: 0, dir: vec![], export_top: et, body });
     }
     Scenario { run_import_tests: false, host_tests: false, prelude: vec![], files, ops, family: "toplevel".into(), flags: Flags::default() }
 }
@@ -2109,21 +2254,42 @@ fn functions_family(rng: &mut Rng) -> Scenario {
     let keys: [Name; 4] = [60, 61, 62, 91];
     let mut files = vec![];
     // m2: something to import from inside a function
-    files.push(FileDef { path: MPath { dir: vec![], name: 2, is_dir: false }, body: Some(vec![TAct::A(Act::Print(next())), TAct::A(Act::Export(61, 7))]) });
-    // the library m0
+    files.push(FileDef { fn_defaults: 0, path: MPath { dir: vec![], name: 2, is_dir: false }, body: Some(vec![TAct::A(Act::Print(next())), TAct::A(Act::Export(61, 7))]) });
+    // the library m0: functions with 0–3 default-valued arguments × 0–3 captured locals × 1–3 reads
+    // of ids that cannot be captured (exported later in the module, exported by other functions,
+    // provided by a wildcard import), plus exports from callbacks and generator bodies
     let mut b = vec![TAct::A(Act::Print(next()))];
-    if rng.chance(1, 2) {
+    let lib_defaults = rng.below(4) as u8;
+    let wild = rng.chance(1, 2);
+    if wild {
+        b.push(TAct::A(Act::FromAll(2.into()))); // makes k61 (and nothing else) visible as a non-local
+    }
+    let n_caps = rng.below(4);
+    let caps: Vec<Name> = (0..n_caps).map(|i| 64 + i as Name).collect();
+    for (i, c) in caps.iter().enumerate() {
+        b.push(TAct::A(Act::Assign(*c, 40 + i as i64)));
+    }
+    if rng.chance(1, 3) {
         b.push(TAct::A(Act::Export(*rng.pick(&keys), 5)));
     }
     let n_fns = 2 + rng.below(2);
     let fn_keys: Vec<Name> = (0..n_fns).map(|i| 70 + i as Name).collect();
     for fk in &fn_keys {
         let mut body = vec![];
-        for _ in 0..(1 + rng.below(2)) {
-            body.push(match rng.below(6) {
+        for c in &caps {
+            if rng.chance(1, 2) {
+                body.push(Act::Show(next(), *c));
+            }
+        }
+        for _ in 0..(1 + rng.below(3)) {
+            body.push(Act::Show(next(), *rng.pick(&keys)));
+        }
+        for _ in 0..rng.below(3) {
+            body.push(match rng.below(7) {
                 0 | 1 => Act::Export(*rng.pick(&keys), 10 + rng.below(9) as i64),
-                2 | 3 => Act::Show(next(), *rng.pick(&keys)),
-                4 => Act::Import(vec![Item { name: 2, as_: Some(63), ..Default::default() }]),
+                2 => Act::Cb(rng.below(CB_COUNT as usize) as u32, rng.below(4) as u32, *rng.pick(&keys)),
+                3 => Act::Import(vec![Item { name: 2, as_: Some(63), ..Default::default() }]),
+                4 => Act::Cmp(*rng.pick(&keys), COp::Add, Rhs::Lit(1)),
                 _ => Act::Assign(*rng.pick(&keys), 90),
             });
         }
@@ -2132,10 +2298,23 @@ fn functions_family(rng: &mut Rng) -> Scenario {
             b.push(TAct::Call(*fk)); // the library calls its own function: then the export lands in the library
         }
     }
-    if rng.chance(1, 3) {
-        b.push(TAct::A(Act::Export(*rng.pick(&keys), 6)));
+    // the exports the functions read are made AFTER the functions were created
+    for k in keys.iter() {
+        if rng.chance(2, 3) {
+            b.push(TAct::A(Act::Export(*k, 20 + rng.below(9) as i64)));
+        }
     }
-    files.push(FileDef { path: MPath { dir: vec![], name: 0, is_dir: false }, body: Some(b) });
+    if rng.chance(1, 3) {
+        b.push(TAct::A(Act::Cb(rng.below(CB_COUNT as usize) as u32, 1 + rng.below(3) as u32, *rng.pick(&keys))));
+    }
+    if rng.chance(1, 3) {
+        let body = vec![Act::Show(next(), *rng.pick(&keys)), Act::Cb(rng.below(CB_COUNT as usize) as u32, 2, *rng.pick(&keys))];
+        b.push(TAct::Main(next(), body));
+    }
+    if rng.chance(1, 3) {
+        b.push(TAct::Call(*rng.pick(&fn_keys)));
+    }
+    files.push(FileDef { fn_defaults: lib_defaults, path: MPath { dir: vec![], name: 0, is_dir: false }, body: Some(b) });
     // m1 imports the library and calls into it
     let mut b = vec![TAct::A(Act::Print(next())), TAct::A(Act::Import(vec![Item { name: 0, as_: None, ..Default::default() }]))];
     for _ in 0..(1 + rng.below(3)) {
@@ -2145,7 +2324,7 @@ fn functions_family(rng: &mut Rng) -> Scenario {
             _ => b.push(TAct::A(Act::Export(*rng.pick(&keys), 30))),
         }
     }
-    files.push(FileDef { path: MPath { dir: vec![], name: 1, is_dir: false }, body: Some(b) });
+    files.push(FileDef { fn_defaults: 0, path: MPath { dir: vec![], name: 1, is_dir: false }, body: Some(b) });
     // host
     let mut ops = vec![];
     for _ in 0..(2 + rng.below(3)) {
@@ -2181,7 +2360,7 @@ fn functions_family(rng: &mut Rng) -> Scenario {
                 body.push(TAct::A(Act::Show(next(), *k)));
             }
         }
-        ops.push(Op { dir: vec![], export_top: rng.chance(1, 5), body });
+        ops.push(Op { script: None, fn_defaults: 0, dir: vec![], export_top: rng.chance(1, 5), body });
     }
     Scenario { run_import_tests: false, host_tests: false, prelude: vec![], files, ops, family: "functions".into(), flags: Flags::default() }
 }
@@ -2233,23 +2412,23 @@ fn spellings_family(rng: &mut Rng) -> Scenario {
         let r = Ref { name: 1, str_: true, segs: vec![Some(5), None], dot: false };
         b.push(TAct::A(Act::Try(r, next())));
     }
-    files.push(FileDef { path: MPath { dir: vec![], name: 1, is_dir: false }, body: Some(b) });
+    files.push(FileDef { fn_defaults: 0, path: MPath { dir: vec![], name: 1, is_dir: false }, body: Some(b) });
     let dotted_file = rng.chance(1, 2);
     if dotted_file {
-        files.push(FileDef { path: MPath { dir: vec![], name: 212, is_dir: false }, body: Some(vec![TAct::A(Act::Print(next())), TAct::A(Act::Export(60, 2))]) });
+        files.push(FileDef { fn_defaults: 0, path: MPath { dir: vec![], name: 212, is_dir: false }, body: Some(vec![TAct::A(Act::Print(next())), TAct::A(Act::Export(60, 2))]) });
     }
     let dotted_dir = rng.chance(1, 3);
     if dotted_dir {
-        files.push(FileDef { path: MPath { dir: vec![], name: 213, is_dir: true }, body: Some(vec![TAct::A(Act::Print(next())), TAct::A(Act::Export(60, 3))]) });
+        files.push(FileDef { fn_defaults: 0, path: MPath { dir: vec![], name: 213, is_dir: true }, body: Some(vec![TAct::A(Act::Print(next())), TAct::A(Act::Export(60, 3))]) });
     }
     let dotted_only = rng.chance(1, 3);
     if dotted_only {
         // m2.v1.koto without m2.koto at the root
-        files.push(FileDef { path: MPath { dir: vec![], name: 221, is_dir: false }, body: Some(vec![TAct::A(Act::Print(next())), TAct::A(Act::Export(60, 4))]) });
+        files.push(FileDef { fn_defaults: 0, path: MPath { dir: vec![], name: 221, is_dir: false }, body: Some(vec![TAct::A(Act::Print(next())), TAct::A(Act::Export(60, 4))]) });
     }
     if rng.chance(1, 3) {
         // a module of the same name in m5/ shadows the root one for `import m1` from m5/
-        files.push(FileDef { path: MPath { dir: vec![5], name: 1, is_dir: false }, body: Some(vec![TAct::A(Act::Print(next())), TAct::A(Act::Export(60, 50))]) });
+        files.push(FileDef { fn_defaults: 0, path: MPath { dir: vec![5], name: 1, is_dir: false }, body: Some(vec![TAct::A(Act::Print(next())), TAct::A(Act::Export(60, 50))]) });
     }
     // importers in sub-folders
     for (dir, name, is_dir) in [(vec![5], 2u32, false), (vec![6], 3, false), (vec![5], 4, true)] {
@@ -2266,7 +2445,7 @@ fn spellings_family(rng: &mut Rng) -> Scenario {
             let r = spelling(rng, &folder, &[5], 2, &dirs);
             b.push(TAct::A(imp(r, Some(63))));
         }
-        files.push(FileDef { path: MPath { dir, name, is_dir }, body: Some(b) });
+        files.push(FileDef { fn_defaults: 0, path: MPath { dir, name, is_dir }, body: Some(b) });
     }
     // host scripts from several folders
     let host_dirs: Vec<Vec<Name>> = vec![vec![], vec![], vec![5], vec![6], vec![5, 4]];
@@ -2311,7 +2490,7 @@ fn spellings_family(rng: &mut Rng) -> Scenario {
                 body.push(TAct::A(Act::Show(next(), *rng.pick(&[64, 65, 66, 67, 60]))));
             }
         }
-        ops.push(Op { dir, export_top: et, body });
+        ops.push(Op { script: None, fn_defaults: 0, dir, export_top: et, body });
     }
     Scenario { run_import_tests: rng.chance(1, 2), host_tests: false, prelude: vec![], files, ops, family: "spellings".into(), flags: Flags::default() }
 }
@@ -2373,7 +2552,7 @@ fn patterns_family(rng: &mut Rng) -> Scenario {
     for (j, k) in keys.iter().enumerate() {
         b0.push(TAct::A(Act::Export(*k, 10 + j as i64)));
     }
-    files.push(FileDef { path: MPath { dir: vec![], name: 0, is_dir: false }, body: Some(b0) });
+    files.push(FileDef { fn_defaults: 0, path: MPath { dir: vec![], name: 0, is_dir: false }, body: Some(b0) });
     // m1: re-exports through patterns
     let src: Name = if rng.chance(1, 3) { 69 } else { 0 };
     let mut b1 = vec![TAct::A(Act::Print(next()))];
@@ -2393,7 +2572,7 @@ fn patterns_family(rng: &mut Rng) -> Scenario {
     let mm = next();
     let reads: Vec<Act> = all_ids.iter().filter(|_| rng.chance(1, 3)).map(|k| Act::Show(next(), *k)).collect();
     b1.push(TAct::Main(mm, reads));
-    files.push(FileDef { path: MPath { dir: vec![], name: 1, is_dir: false }, body: Some(b1) });
+    files.push(FileDef { fn_defaults: 0, path: MPath { dir: vec![], name: 1, is_dir: false }, body: Some(b1) });
     // host
     let mut ops = vec![];
     let mut body = vec![TAct::A(Act::Import(vec![Item { name: 1, as_: None, ..Default::default() }])), TAct::A(Act::Show(next(), 1))];
@@ -2404,7 +2583,7 @@ fn patterns_family(rng: &mut Rng) -> Scenario {
             body.push(TAct::A(Act::Show(next(), it.name)));
         }
     }
-    ops.push(Op { dir: vec![], export_top: false, body });
+    ops.push(Op { script: None, fn_defaults: 0, dir: vec![], export_top: false, body });
     let et = rng.chance(1, 2);
     let mut body = vec![TAct::A(Act::Try(1.into(), next())), TAct::A(Act::FromAll(1.into()))];
     if et {
@@ -2415,14 +2594,14 @@ fn patterns_family(rng: &mut Rng) -> Scenario {
             body.push(TAct::A(Act::Show(next(), *k)));
         }
     }
-    ops.push(Op { dir: vec![], export_top: et, body });
+    ops.push(Op { script: None, fn_defaults: 0, dir: vec![], export_top: et, body });
     // host-level exported assignment (export keyword or export_top_level_ids), read back by the next script
     let et2 = rng.chance(1, 2);
     let hsrc: Name = 0;
     let mut body = vec![TAct::A(Act::Import(vec![Item { name: 0, as_: None, ..Default::default() }]))];
     let exp = !et2 || rng.chance(1, 2);
     body.push(TAct::A(stmt(rng, exp, hsrc)));
-    ops.push(Op { dir: vec![], export_top: et2, body });
+    ops.push(Op { script: None, fn_defaults: 0, dir: vec![], export_top: et2, body });
     let mut body = vec![];
     for k in all_ids.iter() {
         if rng.chance(1, 2) {
@@ -2430,7 +2609,7 @@ fn patterns_family(rng: &mut Rng) -> Scenario {
         }
     }
     body.push(TAct::A(Act::Print(next())));
-    ops.push(Op { dir: vec![], export_top: false, body });
+    ops.push(Op { script: None, fn_defaults: 0, dir: vec![], export_top: false, body });
     Scenario { run_import_tests: true, host_tests: false, prelude: vec![], files, ops, family: "patterns".into(), flags: Flags::default() }
 }
 
@@ -2464,13 +2643,13 @@ fn exhaustive3(idx: u32) -> Scenario {
             b.push(TAct::A(Act::Fail(next())));
         }
         b.push(TAct::A(Act::Export(60, i as i64)));
-        files.push(FileDef { path: MPath { dir: vec![], name: i, is_dir: false }, body: Some(b) });
+        files.push(FileDef { fn_defaults: 0, path: MPath { dir: vec![], name: i, is_dir: false }, body: Some(b) });
     }
     let mut ops = vec![];
     for round in 0..2 {
         for i in 0..3u32 {
             let _ = round;
-            ops.push(Op { dir: vec![], export_top: false, body: vec![TAct::A(Act::Try(i.into(), next()))] });
+            ops.push(Op { script: None, fn_defaults: 0, dir: vec![], export_top: false, body: vec![TAct::A(Act::Try(i.into(), next()))] });
         }
     }
     Scenario { run_import_tests: true, host_tests: false, prelude: vec![], files, ops, family: "exhaustive3".into(), flags: Flags::default() }
@@ -2665,7 +2844,7 @@ fn main() {
             .iter()
             .any(|e| e.get("id").and_then(|x| x.as_str()) == Some(id) && e.get("status").and_then(|x| x.as_str()) == Some("fixed"))
     };
-    let flags = Flags { alias: fixed("F-C18-1"), canon: fixed("F-C18-3"), dotted: fixed("F-C18-4"), str_alias: fixed("F-C18-5") };
+    let flags = Flags { alias: fixed("F-C18-1"), canon: fixed("F-C18-3"), dotted: fixed("F-C18-4"), str_alias: fixed("F-C18-5"), exports_first: fixed("F-C18-7") };
     let filter_f2 = open.iter().any(|x| x == "F-C18-2");
     let mut cx = Ctx { rep, drv, scratch, k_fail: 0, d_fail: 0, known_hits: Default::default(), open, flags };
 
@@ -2674,10 +2853,10 @@ fn main() {
         let sc: Scenario = serde_json::from_value(v["detail"]["scenario"].clone()).expect("detail.scenario");
         println!("request: {}", request(&sc));
         for f in &sc.files {
-            println!("--- {}\n{}", f.path.rel(), f.body.as_ref().map(|b| body_src(b)).unwrap_or(BAD_SOURCE.into()));
+            println!("--- {}\n{}", f.path.rel(), f.body.as_ref().map(|b| body_src_d(b, f.fn_defaults)).unwrap_or(BAD_SOURCE.into()));
         }
         for (i, o) in sc.ops.iter().enumerate() {
-            println!("--- op {} dir={:?} export_top={}\n{}", i, o.dir, o.export_top, body_src(&o.body));
+            println!("--- op {} dir={:?} export_top={} script={:?}\n{}", i, o.dir, o.export_top, o.script, body_src_d(&o.body, o.fn_defaults));
         }
         let outs = run_impl(&mut cx.scratch, &sc);
         match &outs {
